@@ -62,15 +62,19 @@ EXTRA = {
            "abstract interpreter from the function entry on enumerated inputs and compared with specification-side oracles",
     "C02": "write()/sendfile count table, start_response state table and response_length reachability evaluated from the entry; emitted head bytes evaluated for a concrete Response",
     "C03": "reap_workers evaluated per exit code 0..255 (halt exactly for the two boot-failure codes) incl. the reexec_pid reset; 'reap until no child' stated over CFG edges",
-    "C04": "signals sent by stop() evaluated; kill sites found as loops over WORKERS; gevent drain loop found through its deadline local",
-    "C05": "handle_error evaluated per exception class (status, reason, message; request object type); write_error reply evaluated byte for byte; dispatched request followed through copies of next(parser)",
+    "C04": "TERM / INT / QUIT handlers evaluated (every outcome raises StopIteration; stop(False) exactly for INT/QUIT); signals sent by stop() evaluated; kill sites found as loops over WORKERS; gevent drain loop found through its deadline local",
+    "C05": "accept() error clauses of the sync and threaded worker evaluated per errno (EAGAIN / EWOULDBLOCK / ECONNABORTED swallowed, siblings agree on the rest); handle_error evaluated per exception class (status, reason, message; request object type); write_error reply evaluated byte for byte; dispatched request followed through copies of next(parser)",
     "C06": "short-buffer evaluation: from the head of the governing read loop, no buffer shorter than the compared constant lets control leave the loop without a read",
     "C07": "trailers parsed exactly after a zero-size chunk (evaluated on chunk-size lines); one parser per connection",
     "C08": "header-block trust table (forwarded_allow_ips x peer x secure-scheme headers, duplicates, conflicts) from the evaluated header table; PROXY info carried across the requests of one connection, "
            "evaluated on a three-request history with heap objects (handler loop / one call per request)",
     "C09": "bytes handed to util.write evaluated for a concrete Response; start_response state table",
     "C12": "limits part of the evaluated header-block table (field count, field size incl. continuation lines and CRLF, 0 = unlimited)",
-    "C13": "keep-alive reaper table (deadline - now) evaluated; deadline sites found by effect",
+    "C13": "blocking-mode typestate of a connection socket (TConn.init evaluated for fresh / TLS / kept-alive connections; non-blocking before the poller); keep-alive reaper table (deadline - now) evaluated; deadline sites found by effect",
+    "C10": "reload order incl. 'raw_env exports undone before app.reload() snapshots the environment'; every arbiter field derived from the configuration is (re)assigned in setup()",
+    "C14": "reexec evaluated: fork iff reexec_pid == 0 and master_pid == 0; the environment handed to exec for both hand-off modes with concrete pids / listener fds, "
+           "and the GUNICORN_FD string fed back into start() (writer/reader round trip)",
+    "C19": "SafeAtoms.__init__ evaluated on sample atoms with CR / LF / quotes; write accounting table; late-error guard of the handle_request siblings",
     "C15": "header-to-environ key table, request-line split and split_request_uri evaluated on concrete inputs",
     "C16": "configuration-file location table (cli x env x default -> exactly one load) and 'which pairs of a mapping source reach cfg.set' (None included, unknown names of the file ignored) evaluated from the entry; add_argument kwargs evaluated",
     "C18": "'worker no longer alive => response forced to close' evaluated from the entry with `alive` snapshots",
